@@ -152,6 +152,10 @@ def long_plans(gen, insts, sim, rng):
 def replay_plan(pi, gen, ser, insts_plan):
     """Replay a plan step by step through the real simulator; returns (step records, final-goal record or None)."""
     from unified_planning.engines.sequential_simulator import UPSequentialSimulator
+    ed = getattr(gen, "_c03_edit", None)
+    if ed is not None:      # put the problem in the state (before / after the history's edit) in which the plan was validated
+        fexp, old_v, new_v = ed
+        gen.problem.set_initial_value(fexp, new_v if pi >= 100000 else old_v)
     sim = UPSequentialSimulator(gen.problem)
     st = sim.get_initial_state()
     recs = []
@@ -212,7 +216,7 @@ def diagnose_all(ctx, failing, pre):
                 break
         if tags is None and gi is not None and gcodes[gi] & 1:
             tags = ["goal-deviation"] + (["impl-equals-short-circuit-model"] if not gcodes[gi] & 2 else [])
-        out[key] = tags or ["validator-only-deviation", "step-codes:" + ",".join(str(codes[lo + j]) for j in range(len(recs))) + ";goal:" + (str(gcodes[gi]) if gi is not None else "-")]
+        out[key] = tags or ["validator-only-deviation"]
     return out
 
 
@@ -294,6 +298,10 @@ def run(ctx):
                 except Exception:  # noqa  (e.g. the edited initial state violates an invariant: not a usable edit)
                     break
                 edited = True
+                # remembered for the diagnosis (replay_plan): the problem object stays edited after this loop, so a
+                # failing plan validated BEFORE the edit must be replayed with the original initial value
+                old_set = int(old_v) if f.type.is_int_type() else old_v
+                gen._c03_edit = (ser.fexp(f, a), old_set, new_v)
                 stats["edited_problems"] = stats.get("edited_problems", 0) + 1
                 pi = 100000 + pi
                 pre.append("Definition P%d : problem := %s.\nDefinition M%d : metric := %s." % (pi, ser.render(), pi, ser.render_metric(metric)))
